@@ -419,6 +419,43 @@ func (a *fnAn) proveAny(facts []cons, goals []lin, depth int) bool {
 		}
 	}
 	sort.Slice(cands, func(i, j int) bool { return cands[i].v.Name() < cands[j].v.Name() })
+	// min(a, b) / max(a, b): it is one of the two, and which one says how they compare
+	for _, g := range goals {
+		for at := range g.c {
+			cl, ok := at.v.(*ssa.Call)
+			if !ok || at.k != akVal || len(cl.Call.Args) != 2 {
+				continue
+			}
+			nm := calleeName(&cl.Call)
+			if nm != "builtin:min" && nm != "builtin:max" {
+				continue
+			}
+			la, lb := a.linOf(cl.Call.Args[0], 0), a.linOf(cl.Call.Args[1], 0)
+			if !la.ok || !lb.ok {
+				continue
+			}
+			all := true
+			for _, pick := range []struct{ is, other lin }{{la, lb}, {lb, la}} {
+				// the result is pick.is; for min that means is <= other, for max is >= other
+				rel := pick.other.add(pick.is, -1)
+				if nm == "builtin:max" {
+					rel = pick.is.add(pick.other, -1)
+				}
+				nf := append(substAll(facts, at, pick.is), ge(rel))
+				gs := make([]lin, len(goals))
+				for j := range goals {
+					gs[j] = goals[j].subst(at, pick.is)
+				}
+				if !a.proveAny(nf, gs, depth+1) {
+					all = false
+					break
+				}
+			}
+			if all {
+				return true
+			}
+		}
+	}
 	for _, at := range cands {
 		phi := at.v.(*ssa.Phi)
 		var group []atom
